@@ -113,10 +113,10 @@ proof fn lemma_get_mut_effect(old_m: Map<TxId, TxInfo>, new_m: Map<TxId, TxInfo>
 }
 
 pub open spec fn active(txs: Map<TxId, TxInfo>, k: TxId) -> bool { txs.contains_key(k) && txs[k].state == TxState::Active }
-/// gc may drop x: it is aborted, or it committed strictly before every active transaction began
+/// gc may drop x: it is aborted, or it committed no later than every active transaction began (so it overlaps none of them)
 pub open spec fn removable(txs: Map<TxId, TxInfo>, ce: Map<TxId, EpochId>, min: Option<EpochId>, x: TxId) -> bool {
     txs[x].state == TxState::Aborted
-    || (txs[x].state == TxState::Committed && (min is None || (ce.contains_key(x) && ce[x].0 < (min->0).0)))
+    || (txs[x].state == TxState::Committed && (min is None || (ce.contains_key(x) && ce[x].0 <= (min->0).0)))
 }
 /// commit epochs are recorded for committed transactions only (established by commit())
 pub open spec fn tm_wf(txs: Map<TxId, TxInfo>, ce: Map<TxId, EpochId>) -> bool {
@@ -129,7 +129,7 @@ pub open spec fn gc_post(t0: Map<TxId, TxInfo>, c0: Map<TxId, EpochId>, t1: Map<
     &&& forall|k: TxId| c0.contains_key(k) && t1.contains_key(k) ==> c1.contains_key(k)
     &&& forall|t: TxId| t0.contains_key(t) && t0[t].state == TxState::Active ==> t1.contains_key(t)
     &&& forall|t: TxId, o: TxId| t0.contains_key(t) && t0[t].state == TxState::Active && t0.contains_key(o) && t0[o].state == TxState::Committed
-            && c0.contains_key(o) && c0[o].0 >= t0[t].start_epoch.0 ==> #[trigger] t1.contains_key(o) || !#[trigger] t0.contains_key(t)
+            && c0.contains_key(o) && c0[o].0 > t0[t].start_epoch.0 ==> #[trigger] t1.contains_key(o) || !#[trigger] t0.contains_key(t)
 }
 /// C03 "cleaning up finished transactions never changes which commits are accepted": for every transaction still active,
 /// the set of overlapping committed writers that commit() looks for is the same before and after gc.
@@ -535,7 +535,7 @@ proof {
 }''')
     L2.after('''proof {
     assert forall|t: TxId, o: TxId| T0.contains_key(t) && T0[t].state == TxState::Active && T0.contains_key(o) && T0[o].state == TxState::Committed
-            && C0.contains_key(o) && C0[o].0 >= T0[t].start_epoch.0 implies #[trigger] self.transactions@.contains_key(o) || !#[trigger] T0.contains_key(t) by {
+            && C0.contains_key(o) && C0[o].0 > T0[t].start_epoch.0 implies #[trigger] self.transactions@.contains_key(o) || !#[trigger] T0.contains_key(t) by {
         if !self.transactions@.contains_key(o) {
             let j = choose|j: int| 0 <= j < to_remove@.len() && to_remove@[j] == o;
             assert(removable(T0, C0, MIN, to_remove@[j]));
